@@ -95,6 +95,7 @@ class CalibratedLatticeEnsemble(keras.Model):
     """
     # Set our model_config
     self.model_config = model_config
+    self._layers_dtype = tf.as_dtype(dtype).name
     # Check if we are constructing with already provided inputs/outputs, e.g.
     # when we are loading a model.
     if 'inputs' in kwargs and 'outputs' in kwargs:
@@ -144,7 +145,8 @@ class CalibratedLatticeEnsemble(keras.Model):
 
   def get_config(self):
     """Returns a configuration dictionary."""
-    config = {'name': self.name, 'trainable': self.trainable}
+    config = {'name': self.name, 'trainable': self.trainable,
+              'dtype': self._layers_dtype}
     config['model_config'] = keras.utils.legacy.serialize_keras_object(
         self.model_config
     )
@@ -157,6 +159,7 @@ class CalibratedLatticeEnsemble(keras.Model):
     )
     premade_lib.verify_config(model_config)
     return cls(model_config,
+               dtype=config.get('dtype', tf.float32),
                name=config.get('name', None),
                trainable=config.get('trainable', True))
 
@@ -196,6 +199,7 @@ class CalibratedLattice(keras.Model):
     """
     # Set our model_config
     self.model_config = model_config
+    self._layers_dtype = tf.as_dtype(dtype).name
     # Check if we are constructing with already provided inputs/outputs, e.g.
     # when we are loading a model.
     if 'inputs' in kwargs and 'outputs' in kwargs:
@@ -254,7 +258,8 @@ class CalibratedLattice(keras.Model):
 
   def get_config(self):
     """Returns a configuration dictionary."""
-    config = {'name': self.name, 'trainable': self.trainable}
+    config = {'name': self.name, 'trainable': self.trainable,
+              'dtype': self._layers_dtype}
     config['model_config'] = keras.utils.legacy.serialize_keras_object(
         self.model_config
     )
@@ -267,6 +272,7 @@ class CalibratedLattice(keras.Model):
     )
     premade_lib.verify_config(model_config)
     return cls(model_config,
+               dtype=config.get('dtype', tf.float32),
                name=config.get('name', None),
                trainable=config.get('trainable', True))
 
@@ -306,6 +312,7 @@ class CalibratedLinear(keras.Model):
     """
     # Set our model_config
     self.model_config = model_config
+    self._layers_dtype = tf.as_dtype(dtype).name
     # Check if we are constructing with already provided inputs/outputs, e.g.
     # when we are loading a model.
     if 'inputs' in kwargs and 'outputs' in kwargs:
@@ -367,7 +374,8 @@ class CalibratedLinear(keras.Model):
 
   def get_config(self):
     """Returns a configuration dictionary."""
-    config = {'name': self.name, 'trainable': self.trainable}
+    config = {'name': self.name, 'trainable': self.trainable,
+              'dtype': self._layers_dtype}
     config['model_config'] = keras.utils.legacy.serialize_keras_object(
         self.model_config
     )
@@ -380,6 +388,7 @@ class CalibratedLinear(keras.Model):
     )
     premade_lib.verify_config(model_config)
     return cls(model_config,
+               dtype=config.get('dtype', tf.float32),
                name=config.get('name', None),
                trainable=config.get('trainable', True))
 
@@ -419,6 +428,7 @@ class AggregateFunction(keras.Model):
     """
     # Set our model_config
     self.model_config = model_config
+    self._layers_dtype = tf.as_dtype(dtype).name
     # Check if we are constructing with already provided inputs/outputs, e.g.
     # when we are loading a model.
     if 'inputs' in kwargs and 'outputs' in kwargs:
@@ -485,7 +495,8 @@ class AggregateFunction(keras.Model):
 
   def get_config(self):
     """Returns a configuration dictionary."""
-    config = {'name': self.name, 'trainable': self.trainable}
+    config = {'name': self.name, 'trainable': self.trainable,
+              'dtype': self._layers_dtype}
     config['model_config'] = keras.utils.legacy.serialize_keras_object(
         self.model_config
     )
@@ -498,6 +509,7 @@ class AggregateFunction(keras.Model):
     )
     premade_lib.verify_config(model_config)
     return cls(model_config,
+               dtype=config.get('dtype', tf.float32),
                name=config.get('name', None),
                trainable=config.get('trainable', True))
 
